@@ -21,8 +21,9 @@ type c10d struct {
 	hasPTS bool
 }
 
-var c10small = []byte{0x10, 0x11, 0x13, 0x14, 0x30, 0x31, 0x34, 0x35, 0x40, 0x51}
-var c10wide = []byte{0x10, 0x11, 0x13, 0x14, 0x30, 0x31, 0x34, 0x35, 0x40, 0x51, 0x17, 0x19, 0x20, 0x21, 0x36, 0x37, 0x41, 0x44, 0x45, 0x50}
+// 0x22 (break start): an out type that a program resumption cannot close (seeded mutant s44)
+var c10small = []byte{0x10, 0x11, 0x13, 0x14, 0x22, 0x30, 0x31, 0x34, 0x35, 0x40, 0x51}
+var c10wide = []byte{0x10, 0x11, 0x13, 0x14, 0x22, 0x30, 0x31, 0x34, 0x35, 0x40, 0x51, 0x17, 0x19, 0x20, 0x21, 0x23, 0x24, 0x36, 0x37, 0x3C, 0x41, 0x44, 0x45, 0x50}
 
 func c10new(typ byte) c10d {
 	s := CreateSCTE35()
@@ -209,9 +210,10 @@ func (g *c10ghost) close(st State, x c10d) {
 }
 
 func c10run(k int, alpha []byte) {
-	st := NewState()
-	g := &c10ghost{}
-	lastProcessed := -1
+	c10runFrom(NewState(), &c10ghost{}, -1, k, alpha)
+}
+
+func c10runFrom(st State, g *c10ghost, lastProcessed int, k int, alpha []byte) {
 	for step := 0; step < k; step++ {
 		n := len(g.all)
 		// 0..len(alpha)-1: process a fresh descriptor of that type; then re-process / close an earlier one
@@ -234,7 +236,29 @@ func c10run(k int, alpha []byte) {
 	vrt.Reach("end")
 }
 
-// all histories of 3 calls (thorough: 4) over a 10-type alphabet
+// histories inside a blackout: a program start and a breakaway first, then 2 (thorough: 3) free
+// calls over the types that matter there (resumption, out types a resumption can and cannot
+// close, their ends, a type that closes the breakaway itself)
+func VH_C10_Blackout() {
+	st := NewState()
+	g := &c10ghost{}
+	a := c10new(0x10)
+	vrt.Assume(a.hasPTS)
+	g.process(st, a, false)
+	b := c10new(0x13)
+	vrt.Assume(b.hasPTS)
+	g.process(st, b, false)
+	// some continuations (e.g. 0x40 closing the breakaway, then touching the stale index) end in the
+	// listed known panic C10-F1 on every path: the witness tag is placed before them
+	vrt.Reach("in blackout")
+	k := 2
+	if vrt.Tier() == 1 {
+		k = 3
+	}
+	c10runFrom(st, g, 1, k, []byte{0x14, 0x22, 0x23, 0x24, 0x30, 0x34, 0x35, 0x3C, 0x40, 0x44})
+}
+
+// all histories of 3 calls (thorough: 4) over an 11-type alphabet
 func VH_C10_Histories() {
 	if vrt.Tier() == 0 {
 		c10run(3, c10small)
@@ -243,7 +267,7 @@ func VH_C10_Histories() {
 	}
 }
 
-// thorough only: histories of 3 calls over a 20-type alphabet; quick: 2 calls
+// thorough only: histories of 3 calls over a 24-type alphabet; quick: 2 calls
 func VH_C10_Wide() {
 	if vrt.Tier() == 0 {
 		c10run(2, c10wide)
